@@ -1,5 +1,7 @@
 CONSTANTS
   Dev = {}
+  AnchorForms = {"dnskey"}
+  Cfgs = {"default"}
   MaxRuns = 1
   EntQKinds = {"positive", "ds"}
   Budget = 2
@@ -16,5 +18,7 @@ INVARIANT WithinAllowed
 INVARIANT NoPanic
 INVARIANT Terminates
 INVARIANT CacheTransparent
+INVARIANT NoAnchorNotSecure
+INVARIANT LimitsEnforced
 INVARIANT Emit
 CHECK_DEADLOCK TRUE
